@@ -520,6 +520,7 @@ func (c *Case) drawPoolSettings(t *rapid.T) {
 	if rapid.Bool().Draw(t, "custVarCode") {
 		c.reg[tof(CustomVar{})] = &regEntry{Code: &Code{W: 4, V: rapid.Uint32().Draw(t, "custVarCodeV")}}
 	}
+	c.reg[tof((*CustomPR)(nil))] = &regEntry{Code: &Code{W: 1, V: uint32(rapid.IntRange(0, 255).Draw(t, "custPRCodeV"))}}
 	if rapid.IntRange(0, 2).Draw(t, "arr32Code") == 0 {
 		c.reg[tof(NArr32{})] = &regEntry{Code: &Code{W: 1, V: uint32(rapid.IntRange(0, 255).Draw(t, "arr32CodeV"))}}
 	}
@@ -684,6 +685,17 @@ func (c *Case) nCustomVar() *Node {
 	return &Node{Kind: KCustom, T: ty, Name: "CustomVar", Custom: "var", Code: c.regCode(ty)}
 }
 
+// nCustomP16: custom codec on the pointer type only, held by value (no settings registered).
+func (c *Case) nCustomP16() *Node {
+	return &Node{Kind: KCustom, T: tof(CustomP16{}), Name: "CustomP16", Custom: "p16"}
+}
+
+// nCustomPR: custom codec held through a pointer, object code registered under the pointer type.
+func (c *Case) nCustomPR() *Node {
+	ty := tof(CustomPR{})
+	return &Node{Kind: KPtr, T: reflect.PointerTo(ty), Elem: &Node{Kind: KCustom, T: ty, Name: "CustomPR", Custom: "pr", Code: c.regCode(reflect.PointerTo(ty))}}
+}
+
 func (c *Case) nNamedSlice(ty reflect.Type, name string, elem *Node) *Node {
 	return &Node{Kind: KSlice, T: ty, Name: name, S: c.regS(ty), Elem: elem}
 }
@@ -790,7 +802,7 @@ func (c *Case) genElem(t *rapid.T, depth int, label string) *Node {
 	case 8:
 		return c.nPayload(depth)
 	case 9:
-		return rapid.SampledFrom([]func() *Node{c.nCustomU24, c.nCustomVar}).Draw(t, label+".custom")()
+		return rapid.SampledFrom([]func() *Node{c.nCustomU24, c.nCustomVar, c.nCustomP16, c.nCustomPR}).Draw(t, label+".custom")()
 	case 10:
 		if rapid.Bool().Draw(t, label+".addr") {
 			return c.nAddrPtr()
@@ -913,7 +925,10 @@ func (c *Case) genStruct(t *rapid.T, depth int, label string) *Node {
 			}
 		}
 		anonymous := false
-		fieldKind := rapid.IntRange(0, 17).Draw(t, fl+".kind")
+		fieldKind := rapid.IntRange(0, 18).Draw(t, fl+".kind")
+		if fieldKind == 18 {
+			fieldKind = 21
+		}
 		if c.Cfg.FocusTypeRules && depth == 0 && i == 0 {
 			fieldKind = 18
 		}
@@ -1019,7 +1034,21 @@ func (c *Case) genStruct(t *rapid.T, depth int, label string) *Node {
 			}
 			f.Optional = rapid.Bool().Draw(t, fl+".opt")
 		case 14:
-			f.N = rapid.SampledFrom([]func() *Node{c.nCustomU24, c.nCustomVar}).Draw(t, fl+".custom")()
+			f.N = rapid.SampledFrom([]func() *Node{c.nCustomU24, c.nCustomVar, c.nCustomP16, c.nCustomPR}).Draw(t, fl+".custom")()
+			if f.N.Kind == KPtr {
+				f.Optional = rapid.Bool().Draw(t, fl+".opt")
+			}
+		case 21:
+			// pointer to a number, bool or string (the binary form writes it like the value; the JSON form cannot express it)
+			el := c.genFixedLeaf(t, fl)
+			for el.Kind == KByteArr || el.Kind == KBigInt || el.Kind == KTime {
+				el = c.genFixedLeaf(t, fl+".re")
+			}
+			if rapid.IntRange(0, 3).Draw(t, fl+".str") == 0 {
+				el = c.nStr(NStrA(""), "NStrA")
+			}
+			f.N = &Node{Kind: KPtr, T: reflect.PointerTo(el.T), Elem: el}
+			f.Optional = rapid.Bool().Draw(t, fl+".opt")
 		case 15:
 			// embedded exported pool struct (flattened) or inlined
 			f.N = c.nEmbA()
